@@ -131,6 +131,46 @@ def _merge_chains(prog, rep, R, c):
                          f"its end ({ast.unparse(tail_ins[0])}): they are emitted after the elements that followed "
                          f"the nested Chain, so Chain([Chain([a, b]), c]) becomes [c, a, b]")
             return
+        back = bool(pops) and all(not p.args or (len(p.args) == 1 and isinstance(p.args[0], ast.UnaryOp)
+                                                 and ast.unparse(p.args[0]) == "-1") for p in pops)
+        if pops and back and len(pops) == 1:
+            # LIFO stack: the next element to emit is the LAST of the stack, so everything that is pushed has to be
+            # pushed in reverse: the start (reversed(self.bijections)) and the members of a nested Chain
+            def is_rev(e):
+                u = ast.unparse(e).replace(" ", "")
+                return u.startswith("reversed(") or u.startswith("list(reversed(") or u.endswith("[::-1]")
+
+            def base_of(e):
+                u = ast.unparse(e).replace(" ", "")
+                for pre in ("list(reversed(", "reversed("):
+                    if u.startswith(pre):
+                        return u[len(pre):].rstrip(")")
+                return u[:-6] if u.endswith("[::-1]") else u
+            inits = [st for st in body[:wi] if isinstance(st, ast.Assign) and len(st.targets) == 1
+                     and isinstance(st.targets[0], ast.Name) and st.targets[0].id == L]
+            pushes = [n for n in tail_ins if n.func.attr == "extend"]
+            outs = [n for n in _find(w, ast.Call) if isinstance(n.func, ast.Attribute) and n.func.attr == "append"
+                    and isinstance(n.func.value, ast.Name) and n.func.value.id != L]
+            if len(inits) == 1 and len(pushes) == 1 and len(outs) == 1 and len(pushes[0].args) == 1:
+                init_e, push_e = inits[0].value, pushes[0].args[0]
+                ok_init = is_rev(init_e) and base_of(init_e) == "self.bijections"
+                rep.check(ok_init, R, site, "Chain.merge_chains:start",
+                          "stack starts as reversed(self.bijections) (popped from the end: first element first)",
+                          f"LIFO stack '{L}' starts as {ast.unparse(init_e)}: popping from the end then emits the "
+                          f"bijections in reverse order")
+                ok_push = is_rev(push_e) and base_of(push_e).endswith(".bijections")
+                rep.check(ok_push, R, site, "Chain.merge_chains:in-place",
+                          "members of a nested Chain are pushed reversed, so they pop in order",
+                          f"members of a nested Chain are pushed as {ast.unparse(push_e)} onto a LIFO stack: they are "
+                          f"popped last-first, so Chain([Chain([a, b]), c]) becomes [b, a, c]")
+                rets = [st for st in body[wi + 1:] if isinstance(st, ast.Return)]
+                outn = outs[0].func.value.id
+                ok_r = bool(rets) and ast.unparse(rets[-1].value).replace(" ", "") in (
+                    f"Chain({outn})", f"Chain(tuple({outn}))", f"Chain(list({outn}))")
+                rep.check(ok_r, R, site, "Chain.merge_chains:result", f"returns Chain({outn})",
+                          f"returns {ast.unparse(rets[-1].value) if rets else None}")
+                rep.holds(R, site, "Chain.merge_chains:until-flat", "loop runs until the stack is empty", nontrivial=False)
+                return
         rep.undecided(R, site, "Chain.merge_chains", "work-list form not recognised")
         return
     if len(seqs) != 1:
@@ -179,6 +219,27 @@ def rule_merge_transforms(prog: Program, rep: Report, R: str):
     site = method_site(prog, c, "merge_transforms")
     body = [s for s in fn.body if not (isinstance(s, ast.Expr) and isinstance(s.value, ast.Constant))]
     whiles = [s for s in body if isinstance(s, ast.While)]
+    recursive = [n for n in _find(fn, ast.Call) if isinstance(n.func, ast.Attribute) and n.func.attr == "merge_transforms"]
+    if not whiles and recursive:
+        # recursive form: by induction on the nesting depth (hypothesis: the recursive call on the level below
+        # returns (its innermost base, the composition of the levels below)), the method must return
+        # Transformed(inner.base_dist, Chain([inner.bijection, self.bijection]).merge_chains()).
+        ref = ("def merge_transforms(self):\n"
+               "    if not isinstance(self.base_dist, AbstractTransformed):\n        return self\n"
+               "    inner = self.base_dist.merge_transforms()\n"
+               "    return Transformed(inner.base_dist, Chain([inner.bijection, self.bijection]).merge_chains())\n")
+        noin = {TRANSFORMED + ".merge_transforms"}
+        from ..terms import Interp
+        got = Interp(prog, no_inline=noin).eval_method(c, "merge_transforms", [])
+        want = eval_ref_method(prog, c, ref, [], no_inline=noin)
+        ok = compare(rep, R, site, "merge_transforms:recursive", got, want, "result (recursive form, induction on depth)")
+        if ok:
+            # the single comparison settles the three clauses of the inductive step; list them as covered
+            for kk, what in (("base-case", "a base that is not transformed is returned unchanged"),
+                             ("recursion-target", "the recursive call is on self.base_dist"),
+                             ("composition-order", "Chain([inner.bijection, self.bijection]) on inner.base_dist")):
+                rep.holds(R, site, f"merge_transforms:recursive:{kk}", what, nontrivial=False)
+        return
     if len(whiles) != 1:
         rep.undecided(R, site, "merge_transforms", "expected exactly one while loop")
         return
